@@ -64,8 +64,8 @@ PRELUDE = ("From Coq Require Import List NArith ZArith.\nImport ListNotations.\n
 
 def plan(ctx):
     if ctx.tier == "quick":
-        return [("flat", 24, 5, 4), ("flat", 1, 6, 4), ("hist", 18, 5, 4), ("full", 14, 5, 4)]
-    return [("flat", 300, 5, 8), ("flat", 24, 6, 8), ("hist", 200, 5, 8), ("hist", 12, 6, 8), ("full", 160, 5, 8),
+        return [("corpus", 5, 5, 0), ("flat", 24, 5, 4), ("flat", 1, 6, 4), ("hist", 18, 5, 4), ("full", 14, 5, 4)]
+    return [("corpus", 5, 5, 0), ("flat", 300, 5, 8), ("flat", 24, 6, 8), ("hist", 200, 5, 8), ("hist", 12, 6, 8), ("full", 160, 5, 8),
             ("full", 12, 6, 8), ("big", 1, 1100, 0)]
 
 
